@@ -279,6 +279,13 @@ def run(case, ctx):
           "machine-links",
           repr(sorted({(x, y, int(l)) for x, y, l in machine.iter_links()} ^
                       want_links)[:6]))
+    import warnings as _w
+    with _w.catch_warnings():
+        _w.simplefilter("ignore")
+        legacy = mc.get_machine()
+    check(legacy == machine and set(legacy) == responding,
+          "get-machine-differs", "deprecated get_machine() disagrees with "
+          "build_machine(get_system_info())")
     # ------------------------------------------------- core reservations
     cons = pr_utils.build_core_constraints(si)
     ctx.hit("core_constraints_checked")
